@@ -2071,6 +2071,27 @@ impl<'a, R: FileManager> FrontendCtx<'a, R> {
         visibility: Visibility,
         anchor: &Anchor,
     ) -> Res<Runtype> {
+        self.extract_type_from_ts_entity_name_in(
+            type_name,
+            ts_type_args,
+            file.clone(),
+            file,
+            visibility,
+            anchor,
+        )
+    }
+
+    // `file` is where the name is looked up, `args_file` is where the type arguments are written
+    // (they differ for `import("./x").Name<Args>`: Args belong to the importing file)
+    fn extract_type_from_ts_entity_name_in(
+        &mut self,
+        type_name: &TsEntityName,
+        ts_type_args: &Option<Box<TsTypeParamInstantiation>>,
+        file: BffFileName,
+        args_file: BffFileName,
+        visibility: Visibility,
+        anchor: &Anchor,
+    ) -> Res<Runtype> {
         if let TsEntityName::Ident(ident) = type_name {
             for (n, t) in self.type_application_stack.iter().rev() {
                 if ident.sym == *n {
@@ -2083,7 +2104,7 @@ impl<'a, R: FileManager> FrontendCtx<'a, R> {
             Some(its) => {
                 let mut args = vec![];
                 for ty in &its.params {
-                    let arg_ty = self.extract_type(ty, file.clone())?;
+                    let arg_ty = self.extract_type(ty, args_file.clone())?;
                     args.push(arg_ty);
                 }
                 args
@@ -2731,10 +2752,11 @@ impl<'a, R: FileManager> FrontendCtx<'a, R> {
         {
             match &import_type.qualifier {
                 Some(ts_entity_name) => {
-                    return self.extract_type_from_ts_entity_name(
+                    return self.extract_type_from_ts_entity_name_in(
                         ts_entity_name,
                         &import_type.type_args,
                         resolved,
+                        file,
                         Visibility::Export,
                         &anchor,
                     );
@@ -2744,7 +2766,7 @@ impl<'a, R: FileManager> FrontendCtx<'a, R> {
                         Some(its) => {
                             let mut args = vec![];
                             for ty in &its.params {
-                                let arg_ty = self.extract_type(ty, resolved.clone())?;
+                                let arg_ty = self.extract_type(ty, file.clone())?;
                                 args.push(arg_ty);
                             }
                             args
